@@ -85,10 +85,31 @@ def returns(r):
     return cls(r) in ('Ok', 'Err', 'List', 'Other')
 
 
+REFUSED = ['ENCA\tHostName(%s)\t' % ('ab' * 1100),
+           'ENC\tC(0,1,2,3,4,[MessageType(Hello);%s])\t' % ';'.join('HostName(%s)' % ('cd' * 1017) for _ in range(65)),
+           'ENC\tC(0,1,2,3,4,[MessageType(Hello);Challenge(%s)])\t' % ('ef' * 2000)]
+
+
 def run_compare(ctx, rep, cases, tags, observe, which=IMPLS, nontrivial=None, rule=None):
     """Run cases on the model and the implementation builds; compare through `observe`.
     -> {executor: results}.  BADCASE on either side excludes the case (and is counted)."""
-    res = ctx.runner.run(cases, ('model',) + tuple(which))
+    if len(cases) >= 40 and cases[0].split('\t', 1)[0] in ('ENC', 'ENCA', 'ENCS', 'ENCW', 'ENCAW'):
+        # every ~120 cases a write the encoder must refuse (it panics, the harness catches it): whatever a caught panic
+        # leaves behind on that thread would show in the cases that follow
+        ext, keep = [], []
+        for i, c in enumerate(cases):
+            if i % 120 == 7:
+                ext.append(REFUSED[(i // 120) % len(REFUSED)])
+            keep.append(len(ext))
+            ext.append(c)
+        full = ctx.runner.run(ext, ('model',) + tuple(which))
+        for w in full:
+            for j, c in enumerate(ext):
+                if c in REFUSED and not full[w][j].startswith('PANIC') and w != 'model':
+                    rep.fail('an oversize value was not refused', case=c[:200], executor=w, result=full[w][j][:200])
+        res = {w: [full[w][j] for j in keep] for w in full}
+    else:
+        res = ctx.runner.run(cases, ('model',) + tuple(which))
     mod = res['model']
     for i, c in enumerate(cases):
         rep.evaluations += 1
@@ -308,6 +329,7 @@ def c01_cost(ctx, rep, cases):
 
 def run_c01(ctx, budget=None):
     rep = Report()
+    check_many_records(ctx, rep, ('DEC',))
     cases, tags = c01_cases(ctx, budget or ctx.scale(12000, 150000))
     res = run_compare(ctx, rep, cases, tags, lambda c, r: 'RETURNS' if returns(r) and cls(r) != 'ErrEmpty' else cls(r),
                       nontrivial=lambda c, m: len(c) > 12)
@@ -380,8 +402,39 @@ def big_values(rng):
     avps.append('VendorName(%s)' % rutf8(rng, 37).hex())
     out.append(('max_msg_65535', ctrl_text(0, 1, 2, 3, 4, avps)))
     out.append(('one_big_avp', ctrl_text(7, 1, 2, 3, 4, ['MessageType(SetLinkInfo)', big])))
+    for n in (256, 257, 1000):
+        out.append(('many_avps_%d' % n, ctrl_text(0, 1, 2, 3, 4, ['MessageType(Hello)'] + ['SequencingRequired()'] * n + ['AssignedTunnelId(%d)' % rng.getrandbits(16)])))
     return out
 
+
+
+def many_record_cases(rng):
+    """Messages with thousands of 6-octet records.  The list-based Model needs minutes for these, and needs not be asked:
+    the expected results are written down directly.  -> [(case, expected result on the implementation)]"""
+    out = []
+    seq = avp_rec(39, b'')
+    for n in (8190, 8191, 8192, 8193, 10900):
+        v = rng.getrandbits(16)
+        mt = rng.choice(MT)
+        good = ctrl_bytes(avp_rec(0, be(MT_CODE[mt], 2)) + seq * n + avp_rec(9, be(v, 2)))
+        txt = 'C(%d,1,2,3,4,[%s])' % (len(good), ';'.join(['MessageType(%s)' % mt] + ['SequencingRequired()'] * n + ['AssignedTunnelId(%d)' % v]))
+        out.append(('DEC\t%d\t%s' % (rng.randrange(8), good.hex()), 'Ok %s rem=0' % txt))
+        out.append(('ENC\t%s\t' % txt.replace('C(%d,' % len(good), 'C(0,', 1), 'Ok ' + good.hex()))
+        bad = ctrl_bytes(avp_rec(0, be(MT_CODE[mt], 2)) + seq * n + avp_rec(40, b'xy') + seq + avp_rec(9, b'\x01'))
+        out.append(('DEC\t%d\t%s' % (rng.randrange(8), bad.hex()), 'Err [UnknownAvp(40),IncompleteAVP(9)]'))
+    return out
+
+
+def check_many_records(ctx, rep, channels=('DEC', 'ENC')):
+    items = [(c, e) for (c, e) in many_record_cases(ctx.rng) if c.split('\t', 1)[0] in channels]
+    res = ctx.runner.run([c for c, _ in items], IMPLS)
+    for w in IMPLS:
+        for (c, e), r in zip(items, res[w]):
+            rep.evaluations += 1
+            rep.dist['many_records'] += 1
+            if r != e:
+                rep.fail('a message with thousands of AVP records is not handled as specified', case=c[:300] + '...', executor=w,
+                         got=r[:200] + ' ... ' + r[-120:], expected=e[:200] + ' ... ' + e[-120:], records=c.count('010600000027') if 'DEC' in c else c.count('SequencingRequired'))
 
 
 # ---- observations: what a property's correspondence compares (DESIGN 6.2) ----
@@ -492,6 +545,7 @@ def run_c02(ctx):
 # =============================================================================== C03
 def run_c03(ctx):
     rep = Report()
+    check_many_records(ctx, rep, ('DEC', 'ENC'))
     rng = ctx.rng
     vals = [(t, v) for (t, v) in big_values(rng)]
     for _ in range(ctx.scale(2500, 30000)):
@@ -620,6 +674,7 @@ def lib_split(s):
 
 def run_c05(ctx):
     rep = Report()
+    check_many_records(ctx, rep, ('DEC',))
     rng = ctx.rng
     cases, tags = [], []
     for (t, b) in corpus.dec_corpus(rng, ctx.scale(14000, 200000), ctx.thorough):
@@ -675,6 +730,10 @@ def run_c06(ctx):
         P, ln, tid, sid, nsnr, off, payload = rand_data(rng)
         if rng.random() < 0.4:   # arbitrary (not necessarily consistent) length / offset fields are echoed
             ln = rng.choice([None, extreme(rng, 16)]); off = rng.choice([None, extreme(rng, 16)])
+        if rng.random() < 0.15:  # ... including lengths that stand in some relation to the other fields
+            off = rng.choice([1, 2, 3, 7, len(payload)])
+            hdr = 10 + (4 if nsnr else 0)
+            ln = rng.choice([hdr + off + len(payload), hdr + len(payload), hdr + off, len(payload) + off, hdr - 2 + off + len(payload)]) & 0xffff
         if rng.random() < 0.1:
             payload = b''
         cases.append('ENC\t%s\t' % data_text(P, ln, tid, sid, nsnr, off, payload)); tags.append('data')
@@ -1079,8 +1138,21 @@ def run_c10(ctx):
 
 
 # =============================================================================== C11 / C12 / C13
+SECRET_LENS = list(range(0, 300)) + [511, 512, 513, 1009, 1018, 1023, 1024]
+
+
+def rsecret(rng):
+    c = rng.random()
+    if c < 0.45:
+        return rng.choice([b'', b's', rbytes(rng, rng.randrange(1, 9)), rbytes(rng, rng.choice([16, 55, 56, 64, 100]))])
+    if c < 0.9:
+        return rbytes(rng, rng.choice(SECRET_LENS))      # every length up to 299: buffers sized from the secret
+    s = rbytes(rng, rng.randrange(3, 40))
+    return rng.choice([b'\xef\xbb\xbf' + s, s + b'\x00', b' ' + s + b' ', s.replace(b'\x00', b'\x01'), b'tunnel-Aa' + s[:4], b'tunnel-BB' + s[:4]])
+
+
 def hide_args(rng):
-    secret = rng.choice([b'', b's', rbytes(rng, rng.randrange(1, 9)), rbytes(rng, rng.choice([16, 55, 56, 64, 100]))])
+    secret = rsecret(rng)
     rv = rbytes(rng, 4)
     lp = rng.choice([b'', b'', rbytes(rng, rng.randrange(1, 41)), rbytes(rng, rng.choice([14, 15, 16, 30]))])
     ap = rbytes(rng, 16)
@@ -1231,12 +1303,12 @@ def reveal_cases(ctx, n):
     cases, tags, must_err, ann = [], [], [], []
     for _ in range(n):
         t = rng.choice([7, 7, 8, 0, 1, 12, 34, 35, 39, 36, rng.randrange(0, 42), rng.getrandbits(16)])
-        s = rng.choice([b'', b's', rbytes(rng, rng.randrange(1, 20))])
+        s = rsecret(rng)
         rv = rbytes(rng, 4)
         c = rng.random()
         me = False
         if c < 0.35:
-            nblk = rng.choice([1, 1, 2, 3, 4, 4]) if rng.random() < 0.97 else rng.choice([65, 66, 70])
+            nblk = rng.choice([1, 1, 2, 3, 4, 4]) if rng.random() < 0.97 else rng.choice([63, 64, 65, 66, 70, 80, 128, 129])
             avail = 16 * nblk - 2
             # decrypted total sits at each boundary: available-1, available, available+1, 5, 6, 1023, 1024
             tot = rng.choice([avail + 6 - 1, avail + 6, avail + 6 + 1, 5, 6, 7, 1023, 1024, 1025, 1040, 0, 65535, rng.randrange(0, 80)])
@@ -1253,7 +1325,7 @@ def reveal_cases(ctx, n):
             me = True
             tag = 'misaligned_or_empty'
         elif c < 0.8:
-            val = rbytes(rng, rng.choice([16, 16, 32, 48, 64, 1008, 1024]))
+            val = rbytes(rng, rng.choice([16, 16, 16, 32, 32, 48, 64, 64, 1008, 1024, 1040, 1056, 2064]))
             tag = 'random_wrong_key'
         else:
             vp = valid_payload(rng, t) if t in TYPE_KIND else rbytes(rng, 4)
@@ -1384,6 +1456,7 @@ def run_c14(ctx):
 # =============================================================================== C15
 def run_c15(ctx):
     rep = Report()
+    check_many_records(ctx, rep, ('DEC',))
     rng = ctx.rng
     msgs = []
     for _ in range(ctx.scale(5000, 60000)):
